@@ -225,7 +225,10 @@ def _check_op(model, R, op, P):
                 ok, why = ONE_SIDED[(op.qual, p)](op, func, cl, arg)
                 R.ob(P + '.SAVED', op.qual, '%s(%s=%s)' % (bname, p, norm(arg)), ok, why, _loc(op, call))
             else:
-                raise Incomplete('backward kernel parameter %s of %s has no known role' % (p, bname))
+                el = _check_result_element(func, op, fcall, fkf, arg, p)
+                if el is None:
+                    raise Incomplete('backward kernel parameter %s of %s has no known role' % (p, bname))
+                R.ob(P + '.SAVED', op.qual, '%s(%s=%s)' % (bname, p, norm(arg)), el[0], el[1], _loc(op, call))
         if bstar:
             # out_data, *bw_data = forward(...) ;  backward(..., *bw_data): trailing params named like the forward's trailing returns
             ok, why = _check_star(model, func, op, fcall, fkf, bstar)
@@ -329,6 +332,33 @@ def _same_binding(func, op, farg, barg):
             if stmt.lineno > farg.lineno and not any(n is farg for n in ast.walk(stmt)):
                 return False
     return True
+
+
+def _check_result_element(func, op, fcall, fkf, arg, p):
+    """a, b, c = forward(...) ; backward(..., p=c): the saved value passed for parameter p must be the forward kernel's return element of that name.
+    None when the argument is not an element of the destructured forward result."""
+    stmt = _stmt_of(func.node, fcall)
+    t = stmt.targets[0] if isinstance(stmt, ast.Assign) else None
+    if not isinstance(t, (ast.Tuple, ast.List)) or not isinstance(arg, ast.Name):
+        return None
+    idx = None
+    for i, e in enumerate(t.elts):
+        if isinstance(e, ast.Starred):
+            break
+        if isinstance(e, ast.Name) and e.id == arg.id:
+            idx = i
+    if idx is None:
+        return None
+    stores = [n for n in ast.walk(func.node) if isinstance(n, ast.Name) and n.id == arg.id and isinstance(n.ctx, ast.Store)]
+    if len(stores) != 1:
+        return None
+    rets = [n for n in body_walk(fkf.node) if isinstance(n, ast.Return)]
+    if len(rets) != 1 or not isinstance(rets[0].value, ast.Tuple) or idx >= len(rets[0].value.elts):
+        raise Incomplete('forward kernel %s does not return a single tuple' % fkf.qualname)
+    got = norm(rets[0].value.elts[idx]).replace('.', '_')
+    got = SYNONYMS.get(got, got)
+    want = SYNONYMS.get(p, p)
+    return got == want, 'forward kernel returns %s at position %d, backward kernel parameter %s expects %s' % (got, idx, p, want)
 
 
 def _check_star(model, func, op, fcall, fkf, bstar):
